@@ -3,7 +3,7 @@
    (they show that neither window flag of W_C08 can be dropped).  Everything here is by vm_compute. *)
 From Coq Require Import List ZArith NArith Bool.
 From PC.Base Require Import Assoc.
-From PC.Sup Require Import Model Monitors Sim RelC08 RelC08b SpecC08.
+From PC.Sup Require Import Model Monitors Sim RelC08 RelC08b SpecC08 CallC08.
 Import ListNotations.
 Open Scope N_scope.
 
@@ -177,3 +177,19 @@ Lemma C08_one_live_combined_lemma : forall cs ord evs s,
   accept (init cs ord) evs = Some s -> w_dup (final_obs cs evs) = false ->
   w_zombie (final_obs cs evs) = false \/ no_stop_pending evs = true -> one_live evs.
 Proof. intros cs ord evs s Hacc Hd Hor. eapply holds_C08_one_live, C08_combined_lemma; eauto. Qed.
+
+(* ---- the call view of ex_seq: what each API call of the sequential history had done when it returned -- *)
+Fixpoint ret_views (m : amap call) (evs : list (tid * event)) : list (tid * option call * bool) :=
+  match evs with
+  | [] => []
+  | (th, e) :: r => match e with EApiReturn ok => [(th, get th m, ok)] | _ => [] end ++ ret_views (cv_step m (th, e)) r
+  end.
+
+Lemma ex_seq_calls : ret_views [] ex_seq =
+  [(11, Some (mkCall (OpStart 1) (Some true) 0 0 0), false);    (* start of a running process: fails, nothing created *)
+   (12, Some (mkCall (OpStop 1) (Some true) 0 0 1), true);      (* stop: one stop request *)
+   (1,  Some (mkCall OpRun None 1 1 0), true);
+   (13, Some (mkCall (OpStart 1) (Some false) 1 1 0), true);    (* start, none running: exactly one instance *)
+   (14, Some (mkCall (OpRestart 1) (Some true) 1 1 1), true);   (* restart: one stop request, exactly one new instance *)
+   (15, Some (mkCall (OpStop 9) (Some false) 0 0 0), false)].   (* unknown name: fails, nothing done *)
+Proof. vm_compute. reflexivity. Qed.
